@@ -264,7 +264,13 @@ func RunCheck(e Engine, a CheckArgs) CheckOutcome {
 			cmd := exec.Command(a.Self, args...)
 			cmd.Env = append(os.Environ(), "GOMEMLIMIT=3GiB")
 			stdout, _ := cmd.StdoutPipe()
-			errf, _ := os.CreateTemp(filepath.Join(a.VerifDir, "build"), "worker-stderr-*")
+			os.MkdirAll(filepath.Join(a.VerifDir, "build"), 0o755)
+			errf, ferr := os.CreateTemp(filepath.Join(a.VerifDir, "build"), "worker-stderr-*")
+			if ferr != nil {
+				results[w].err = ferr
+				results[w].code = -1
+				return
+			}
 			cmd.Stderr = errf
 			if err := cmd.Start(); err != nil {
 				results[w].err = err
